@@ -15,13 +15,24 @@ def binding_demo():
     import traces
     wd = tlcio.workdir()
     try:
-        f, stats = traces.driver_events(wd, 7, 12)
-        rep, events = traces.validate(f)
-        if rep["bad"] or rep["events"] != len(events) or not events:
-            print("binding demo: clean trace not accepted:", rep["bad"][:3])
+        idx = None
+        for seed in range(7, 27):          # (the driver's random stream changes whenever the driver grows: look for a usable event)
+            f, stats = traces.driver_events(wd, seed, 25)
+            rep, events = traces.validate(f)
+            if rep["bad"] or rep["events"] != len(events) or not events:
+                print("binding demo: clean trace not accepted:", rep["bad"][:3])
+                return 1
+            idx = next((i for i, e in enumerate(events) if e["op"] == "intersection" and e.get("res", {}).get("k") == "Point"), None)
+            if idx is not None:
+                events[idx]["res"]["p"][0] += 1
+                break
+            idx = next((i for i, e in enumerate(events) if e["op"] == "in" and e.get("res", {}).get("k") == "Bool"), None)
+            if idx is not None:
+                events[idx]["res"]["b"] = not events[idx]["res"]["b"]
+                break
+        if idx is None:
+            print("binding demo: no usable event recorded")
             return 1
-        idx = next(i for i, e in enumerate(events) if e["op"] == "intersection" and e.get("res", {}).get("k") == "Point")
-        events[idx]["res"]["p"][0] += 1
         g = f + ".corrupt"
         json.dump(events, open(g, "w"))
         rep2, _ = traces.validate(g)
